@@ -679,6 +679,7 @@ class Ctx:
     def __init__(self, repo: Repo, prop: str, tier: str = "quick"):
         self.repo = repo
         self.prop = prop
+        self.skipped_rules: List[Dict[str, str]] = []
         self.tier = tier
         self.instances: List[Instance] = []
         self.evaluations = 0  # folded rows, truth-table valuations, automaton states, paths ...
@@ -707,6 +708,13 @@ class Ctx:
             rule_fn(*args)
         except AnalysisError as ex:
             self.errors.append("%s: %s" % (getattr(rule_fn, "__name__", "rule"), ex))
+
+    def skip_rule(self, rid: str, reason: str, covered_by: str) -> None:
+        """a rule whose analysis cannot be instantiated on this tree while another rule of the property, which decides the same
+        clauses extensionally, ran: recorded (evidence, stdout note), no verdict from it, its floor is not applied"""
+        self.rule_min[rid] = 0
+        self.skipped_rules.append({"rule": rid, "reason": reason, "covered_by": covered_by})
+        self.undecided("rule %s could not be instantiated on this tree (%s); its clauses are decided by %s" % (rid, reason, covered_by))
 
     def rule(self, rid: str, doc: str, min_instances: int = 1) -> str:
         self.rule_docs[rid] = doc
